@@ -109,6 +109,18 @@ public class Dy {
     return IntValue.gen(at(a, e).compareTo(at(b, e)));
   }
 
+  /* n/d reduced by gcd, as a pair of integer-valued dyadics with d > 0 (inputs are made integral by a common shift) */
+  public static Value RatNorm(Value x, Value y) {
+    D a = dec(x), b = dec(y);
+    if (b.n.signum() == 0) { return new TupleValue(new Value[] {x, y}); }
+    int e = Math.min(a.e, b.e);
+    BigInteger n = at(a, e), d = at(b, e);
+    if (d.signum() < 0) { n = n.negate(); d = d.negate(); }
+    BigInteger g = n.gcd(d);
+    if (g.signum() != 0) { n = n.divide(g); d = d.divide(g); }
+    return new TupleValue(new Value[] {enc(n, 0), enc(d, 0)});
+  }
+
   public static Value Trunc(Value x, Value kv) {
     int k = ((IntValue) kv).val;
     D a = dec(x);
